@@ -195,7 +195,7 @@ pub(crate) trait ProtocolRequestBuilder {
 #[async_trait]
 impl ProtocolRequestBuilder for crate::Request {
     async fn into_protocol_request(mut self) -> crate::Result<HttpRequest> {
-        let body = if self.is_empty() == Some(false) {
+        let body = if self.is_empty() != Some(true) {
             self.take_body().into_bytes().await?
         } else {
             vec![]
